@@ -92,6 +92,24 @@ def family_implied_conflict():
     return out
 
 
+def family_unate():
+    """propositional inconsistency seen by unate propagation (assertion::propagate_lb / propagate_ub): one decision p makes a = [x >= 5] true and
+    b = [x >= 3] false in the same propagation batch (root clauses), so the theory meets a bound while a weaker assertion on the same variable is
+    already False in the SAT core and must explain the conflict with the reason of the RIGHT bound; both clause orders, with and without an
+    earlier decision on the opposite bound; mirrored for upper bounds"""
+    out = []
+    pz = (1, 0, 1, 0, 1)
+    for lower in (True, False):
+        a = (3, 1, 0, 5, 1) if lower else (1, 1, 0, 1, 1)
+        b = (3, 1, 0, 3, 1) if lower else (1, 1, 0, 3, 1)
+        u = (1, 1, 0, 6, 1) if lower else (3, 1, 0, -6, 1)
+        for first in (0, 1):
+            cls = [cl(0, 0, 1, 1), cl(0, 0, 2, 0)] if first == 0 else [cl(0, 0, 2, 0), cl(0, 0, 1, 1)]
+            out.append(([pz, a, b], cls + [(A, 0, 1), (A, 2, 0), (POP, 0, 0)]))
+            out.append(([pz, a, b, u], cls + [(A, 3, 1), (A, 0, 1), (A, 2, 0), (POP, 0, 0), (POP, 0, 0)]))
+    return out
+
+
 def sample(rng, n, maxr, maxh):
     out = []
     for _ in range(n):
@@ -133,6 +151,7 @@ def jobs(tier):
     fb = family_bound_propagation()
     scs += fb[::2] if tier == 'quick' else fb
     scs += family_implied_conflict()
+    scs += family_unate()
     if tier == 'quick':
         scs += sample(rng, 40, 3, 4)
         k = 1
